@@ -515,14 +515,75 @@ fn bfs(st: &mut Stats, pepper: bool, clk: Clk, max_users: usize, depth: usize) {
     st.outcome(format!("bfs pepper={} clock={} users<={} depth={}", pepper, clk.ticking, max_users, depth));
 }
 
+/// Password matrix: one user per password of a menu chosen around the places where a hashing front end could lose
+/// information (empty, case, surrounding spaces, NUL, composed vs. decomposed characters, long passwords that agree
+/// on their first 31/32/63/64/71/72/127/128/255/256/1023 bytes); every password is verified against every user.
+/// A password must verify for a user exactly when it is, byte for byte, the one the user was created with.
+fn password_matrix(st: &mut Stats, quick: bool) {
+    let mut menu: Vec<String> = ["", "a", "A", "b", "ab", " a", "a ", "a\0", "a\0b", "\u{e9}", "e\u{301}", "\u{1d11e}", "correct horse", "correct horse "].iter().map(|s| s.to_string()).collect();
+    let stems: &[usize] = if quick { &[32, 64, 72, 128, 256] } else { &[31, 32, 33, 55, 56, 63, 64, 65, 71, 72, 73, 127, 128, 129, 255, 256, 257, 1023, 1024, 4096] };
+    for &n in stems {
+        let stem: String = (0..n).map(|i| (b'a' + (i % 26) as u8) as char).collect();
+        menu.push(stem.clone());
+        menu.push(format!("{}x", stem));
+        menu.push(format!("{}y", stem));
+    }
+    for pepper in [false, true] {
+        let db = Db(Arc::new(Mutex::new(vec![])));
+        let users: Vec<Option<String>> = menu
+            .iter()
+            .map(|pw| {
+                let mut p = provider(&db, pepper, NO_CLOCK);
+                std::panic::catch_unwind(std::panic::AssertUnwindSafe(|| p.create_user(pw))).ok().and_then(|r| r.ok())
+            })
+            .collect();
+        let part = (0..menu.len())
+            .into_par_iter()
+            .map(|u| {
+                let mut s = Stats::default();
+                let Some(uid) = &users[u] else {
+                    s.violation("create_user fails or panics for a password", || json!({"password_len": menu[u].len(), "password_head": menu[u].chars().take(20).collect::<String>(), "pepper": pepper}));
+                    return s;
+                };
+                s.states += 1;
+                let p = provider(&db, pepper, NO_CLOCK);
+                for (q, pw) in menu.iter().enumerate() {
+                    s.evaluations += 1;
+                    s.transitions += 1;
+                    s.nontrivial += 1;
+                    let _call = crate::report::enter(pw.as_bytes());
+                    let got = std::panic::catch_unwind(std::panic::AssertUnwindSafe(|| p.verify(uid, pw)));
+                    let want = menu[u] == *pw;
+                    if got.as_ref().ok() != Some(&want) {
+                        let class = match got {
+                            Err(_) => "verify panics",
+                            Ok(_) if want => "the right password does not verify",
+                            Ok(_) => "a password verifies for a user created with a different password",
+                        };
+                        let common = menu[u].bytes().zip(pw.bytes()).take_while(|(a, b)| a == b).count();
+                        s.violation(format!("password matrix: {}", class), || json!({"created_with_len": menu[u].len(), "created_with_head": menu[u].chars().take(12).collect::<String>(), "tried_len": pw.len(), "tried_head": pw.chars().take(12).collect::<String>(), "common_prefix_bytes": common, "pepper": pepper, "menu_index": [u, q]}));
+                    }
+                }
+                s
+            })
+            .reduce(Stats::default, |mut a, b| {
+                a.merge(b);
+                a
+            });
+        st.merge(part);
+    }
+    st.outcome(format!("password matrix {0}x{0}", menu.len()));
+}
+
 pub fn run(mut cx: Ctx) -> ! {
-    cx.rule = "breadth-first search over histories of {create_user(p1|p2), remove_user, create_session (already expired | default | explicit lifetime), refresh, invalidate_session, invalidate_user_session, the same on unknown uids/tokens, and (clock search) one-second ticks of a virtual wall clock against lifetimes of 2-3 s} on the real AuthProvider over the crate's own Vec<User> database (snapshot/restore), deduplicated on a canonical state read off the model AND the real database (per user: exists, password, model session with seconds left, stored session's token index and distance to its expiry; number of tokens issued); every step is compared with a reference model and every successor (new or merged) is probed: exists, stored hash unchanged (password verification with right/other/wrong passwords in new states whenever the user set changed and at the last level), get_uid_by_token for every token ever issued and unknown ones, and the with_auth_route handler with no cookie, garbage and every token; states = canonical states, transitions = operations applied; non-trivial = successors probed".into();
+    cx.rule = "breadth-first search over histories of {create_user(p1|p2), remove_user, create_session (already expired | default | explicit lifetime), refresh, invalidate_session, invalidate_user_session, the same on unknown uids/tokens, and (clock search) one-second ticks of a virtual wall clock against lifetimes of 2-3 s} on the real AuthProvider over the crate's own Vec<User> database (snapshot/restore), deduplicated on a canonical state read off the model AND the real database (per user: exists, password, model session with seconds left, stored session's token index and distance to its expiry; number of tokens issued); every step is compared with a reference model and every successor (new or merged) is probed: exists, stored hash unchanged (password verification with right/other/wrong passwords in new states whenever the user set changed and at the last level), get_uid_by_token for every token ever issued and unknown ones, and the with_auth_route handler with no cookie, garbage and every token; separately a password matrix (one user per password of a menu around the places where a hashing front end could lose information: empty, case, spaces, NUL, composed/decomposed characters, long passwords agreeing on their first 32..4096 bytes; every password verified against every user, with and without pepper); states = canonical states, transitions = operations applied; non-trivial = successors probed".into();
     let depth = cx.pick(6, 9);
     let users = cx.pick(3, 3);
     cx.bound("depth", depth);
     cx.bound("max_users", users);
     let mut st = Stats::default();
     session_api(&mut st);
+    password_matrix(&mut st, cx.quick());
     bfs(&mut st, false, NO_CLOCK, users, depth);
     bfs(&mut st, true, NO_CLOCK, users.min(2), depth.min(5) - 1);
     // the same search on a virtual wall clock: sessions of 2 s (default), 3 s (explicit) and 2 s after a refresh,
